@@ -507,7 +507,7 @@ theorem C09_split_pdu (k : PduKind) (hk : k.acceptsTrailing = true) (units : Lis
     covers, followed by further octets, is dispatched to the same PDU or refused with a documented
     error -/
 theorem C09_factory_trailing (p : Factory.AnyPdu) (wf : C12.WFPdu p) (rest : Bytes) :
-    Factory.fromRaw (C12.Spec.octets p ++ rest) = .ok (some p) ∨
+    Factory.fromRaw (C12.Spec.octets p ++ rest) = Factory.fromRaw (C12.Spec.octets p) ∨
     ∃ e, Factory.fromRaw (C12.Spec.octets p ++ rest) = .error e ∧ e.documented = true :=
   C12.C12_dispatch_trailing p wf rest
 
